@@ -233,7 +233,7 @@ func (r *storeRun) config(dir string) *comet.StorageConfig {
 			v, _ := comet.NewIVFIndex(2, 2, comet.L2Squared)
 			cfg.VectorIndexTemplate = v
 		case "hnsw":
-			v, _ := comet.NewHNSWIndex(2, comet.L2Squared, 16, 64, 64) // 2M = 32 >= 9 documents: exact
+			v, _ := comet.NewHNSWIndex(2, comet.L2Squared, 16, 80, 64) // 2M = 32 >= 9 documents: exact; efConstruction and efSearch differ on purpose
 			cfg.VectorIndexTemplate = v
 		default:
 			v, _ := comet.NewFlatIndex(2, comet.L2Squared)
